@@ -1,6 +1,7 @@
 // rlharness: drives the real rustyline crate (built from /repo's working
 // tree) on the case files the checks generate. One case per input line, one
 // canonical result per output line.
+mod compl;
 mod direct;
 mod hist;
 mod seg;
@@ -35,6 +36,7 @@ fn main() {
         "fhist" => hist::run_fhist(&mut inp, &mut out),
         "seg" => seg::run(&mut inp, &mut out),
         "direct" => direct::run(&mut inp, &mut out),
+        "compl" => compl::run(&mut inp, &mut out),
         other => {
             eprintln!("unknown stream {other}");
             std::process::exit(2);
